@@ -37,6 +37,8 @@ EXTRA_SQL = [
     ('mindsdb', "update t set a = 1, b = 'x' where c = 2"), ('mindsdb', "insert into t (a, b) values (1, 2), (3, 4)"),
     ('mindsdb', "create table t (a int, b text)"), ('mindsdb', "select 1 union select 2"),
     ('mindsdb', "with c as (select 1) select * from c"),
+    ('mysql', "select * as `a b` from t"), ('mindsdb', "select * from int (select 1) as `a b`"),
+    ('mindsdb', "select MYDB.fn(a), sum(x) over (partition by y order by z rows between 1 preceding and current row) from t"),
     ('mindsdb', "select * from int.tab1 t join mindsdb.pred m using a = 1"),
     ('mindsdb', "select * from int.tab1 t join mindsdb.pred m"),
     ('mindsdb', "select 1 except select 2"), ('mindsdb', "select 1 intersect select 2"),
@@ -173,6 +175,139 @@ def probe_tree(t, rng, meta, max_mut=80):
     return fails
 
 
+def string_sites(root):
+    """(object index in H.walk order, key, value) for every string-valued attribute / list item / dict value"""
+    out = []
+    for i, o in enumerate(H.walk(root)):
+        if isinstance(o, list):
+            out += [(i, j, v) for j, v in enumerate(o) if isinstance(v, str)]
+        elif isinstance(o, dict):
+            out += [(i, k, v) for k, v in o.items() if isinstance(v, str)]
+        elif hasattr(o, '__dict__') and not isinstance(o, (tuple, set, frozenset)):
+            out += [(i, k, v) for k, v in vars(o).items() if isinstance(v, str)]
+    return out
+
+
+def string_variants(v, rng):
+    """one-string near misses: letter case, one character, whitespace"""
+    out = []
+    if v.swapcase() != v:
+        out.append(('case', v.swapcase()))
+        if v.lower() != v:
+            out.append(('lower', v.lower()))
+        if v.upper() != v:
+            out.append(('upper', v.upper()))
+    if v:
+        j = rng.randrange(len(v))
+        c = 'x' if v[j] != 'x' else 'y'
+        out.append(('char', v[:j] + c + v[j + 1:]))
+    out.append(('space-after', v + ' '))
+    out.append(('space-before', ' ' + v))
+    if ' ' in v:
+        out.append(('space-double', v.replace(' ', '  ', 1)))
+        out.append(('space-newline', v.replace(' ', '\n', 1)))
+    elif len(v) > 1:
+        out.append(('space-inside', v[:len(v) // 2] + ' ' + v[len(v) // 2:]))
+    return out
+
+
+def set_site(root, site, value):
+    i, k, _ = site
+    o = H.walk(root)[i]
+    if isinstance(o, (list, dict)):
+        o[k] = value
+    else:
+        setattr(o, k, value)
+
+
+def layout_norm(x):
+    """collapse whitespace runs outside quotes ('…', "…", `…`) to one space; text inside quotes is kept"""
+    out, q, sp = [], None, False
+    for ch in x:
+        if q:
+            out.append(ch)
+            if ch == q:
+                q = None
+            continue
+        if ch.isspace():
+            sp = True
+            continue
+        if sp and out:
+            out.append(' ')
+        sp = False
+        out.append(ch)
+        if ch in '\'"`':
+            q = ch
+    return ''.join(out)
+
+
+def same_sql(x, y):
+    """the two printed texts are the same SQL: identical up to layout (whitespace outside quoted text)"""
+    return x == y or layout_norm(x) == layout_norm(y)
+
+
+def check_near_miss(a, b, meta, site, kind, new):
+    """oracle: a == b  =>  same printed SQL and same to_tree; == symmetric.  a, b differ in one string"""
+    tn = type(a).__name__
+    owner = H.walk(a)[site[0]]
+    where = '%s.%s' % (kind_of_site(owner), site[1] if not isinstance(site[1], int) else 'item')
+    if isinstance(owner, (list, dict)):        # name the attribute that holds the container
+        for o in H.walk(a):
+            if hasattr(o, '__dict__') and not isinstance(o, (list, dict, tuple, set)):
+                ks = [k for k, v in vars(o).items() if v is owner]
+                if ks:
+                    where = '%s.%s' % (type(o).__name__, ks[0])
+                    break
+    base = dict(probe='nearmiss', site=[site[0], site[1]], old=site[2], new=new, variant=kind, where=where, **meta)
+    try:
+        ab, ba = (a == b), (b == a)
+        sa, sb = str(a), str(b)
+        ta, tb = a.to_tree(), b.to_tree()
+    except Exception:
+        return []           # a variant that can no longer be printed is not an equality question
+    fails = []
+    if ab is not ba:
+        fails.append(dict(base, desc='%s: a == b is %r but b == a is %r after changing %s %r -> %r' % (tn, ab, ba, where, site[2], new),
+                          **{'class': 'eq-asymmetric/%s/%s' % (where, kind.split('-')[0])}))
+    if ab is True or ba is True:
+        if not same_sql(sa, sb):
+            fails.append(dict(base, desc='equal trees print different SQL (%s %r vs %r): %r vs %r' % (where, site[2], new, sa[:200], sb[:200]),
+                              print_a=sa[:400], print_b=sb[:400],
+                              **{'class': ('eq-print-differs-ws-in-quotes/%s' % where) if single_line(sa) == single_line(sb)
+                                 else 'eq-print-differs/%s/%s' % (where, kind.split('-')[0])}))
+        if ta != tb:
+            fails.append(dict(base, desc='equal trees have different to_tree() (%s %r vs %r)' % (where, site[2], new),
+                              **{'class': 'eq-tree-differs/%s/%s' % (where, kind.split('-')[0])}))
+    return fails
+
+
+def kind_of_site(o):
+    return H.kind_of(o)
+
+
+def probe_near_miss(t, rng, meta, limit=None):
+    """all single-string near misses of one tree (a random sample of `limit` sites x all variants)"""
+    try:
+        b = copy.deepcopy(t)
+        sites = string_sites(t)
+        str(t), t.to_tree()
+    except Exception:
+        return [], 0
+    if limit is not None and len(sites) > limit:
+        sites = rng.sample(sites, limit)
+    fails, n = [], 0
+    for site in sites:
+        for kind, new in string_variants(site[2], rng):
+            try:
+                set_site(b, site, new)
+            except Exception:
+                continue
+            n += 1
+            fails += check_near_miss(t, b, meta, site, kind, new)
+            set_site(b, site, site[2])
+    return fails, n
+
+
 def abstract_value(v, it):
     """token for an attribute value such that equal tokens <-> == (mirror of the value classes' __eq__)"""
     from mindsdb_sql.parser.ast.base import ASTNode
@@ -287,7 +422,13 @@ def kf_match(k, f):
 def reproduce_kf(k, rng):
     from mindsdb_sql import parse_sql
     w = k['witness']
-    if w.get('probe') == 'tree':
+    if w.get('probe') == 'nearmiss':
+        a = parse_sql(w['sql'], w['dialect'])
+        b = copy.deepcopy(a)
+        site = (w['site'][0], w['site'][1], w['old'])
+        set_site(b, site, w['new'])
+        fs = check_near_miss(a, b, dict(dialect=w['dialect'], sql=w['sql']), site, w['variant'], w['new'])
+    elif w.get('probe') == 'tree':
         fs = probe_tree(parse_sql(w['sql'], w['dialect']), rng, dict(dialect=w['dialect'], sql=w['sql']))
     elif w.get('probe') == 'plan':
         fs = probe_plan(w['sql'], {})[2]
@@ -427,7 +568,7 @@ def run(chk):
 
     # ---- trees: probe + copy correspondence
     trees = []
-    n_trees = n_muts = 0
+    n_trees = n_muts = n_near = 0
     for meta, t in tree_stream(chk, quick, deep):
         n_trees += 1
         chk.count(('tree', meta['dialect'], meta['sql']))
@@ -446,10 +587,16 @@ def run(chk):
         n_muts += m.get('_mutations', 0)
         add_failures(fs)
         bump('tree/%s' % ('fail' if fs else 'ok'))
+        nf, nn = probe_near_miss(t, rng, dict(meta), limit=12 if quick and not deep else None)
+        n_near += nn
+        add_failures(nf)
+        if nf:
+            bump('nearmiss/fail')
         if len(trees) < 400:
             trees.append((meta, t))
-    chk.evaluations += n_muts
+    chk.evaluations += n_muts + n_near
     dist['mutations_applied'] = n_muts
+    dist['near_miss_pairs'] = n_near
     # pairwise equality laws on trees (symmetry, equal => same print)
     for i in range(min(len(trees), 300)):
         (ma, a), (mb, b) = trees[i], trees[rng.randrange(len(trees))]
@@ -618,6 +765,12 @@ def replay(path):
         fs = probe_plan(f['sql'], {})[2]
     elif f.get('probe') == 'result':
         fs = probe_result(f['n'])
+    elif f.get('probe') == 'nearmiss':
+        a = parse_sql(f['sql'], f['dialect'])
+        b = copy.deepcopy(a)
+        site = (f['site'][0], f['site'][1], f['old'])
+        set_site(b, site, f['new'])
+        fs = check_near_miss(a, b, dict(dialect=f['dialect'], sql=f['sql']), site, f['variant'], f['new'])
     elif f.get('probe') == 'steppair':
         from mindsdb_sql.planner import plan_query
         fs = []
